@@ -401,11 +401,14 @@ def mangle_file_for_iso9660(orig, iso_level):
         ext = splitter[-1]
         basename = orig[:len(orig) - len(ext) - 1]
 
-        # If the extension is empty, too long (> 3), or contains any illegal
-        # characters, we treat it as part of the basename instead
+        # If the extension is empty, too long, or contains any illegal
+        # characters, we treat it as part of the basename instead.  Too long
+        # is more than 3 characters at level 1; at levels 2 and 3 the only
+        # limit is the one of 30 for the filename and extension together.
+        maxextlen = 3 if iso_level == 1 else 30
         tmpext = ext.upper()
         extlen = len(tmpext)
-        if extlen == 0 or extlen > 3:
+        if extlen == 0 or extlen > maxextlen:
             valid_ext = ''
             basename = orig
         else:
